@@ -10,9 +10,11 @@ import json
 import os
 import re
 import shutil
+import signal
 import subprocess
 import sys
 import tempfile
+import threading
 import time
 from pathlib import Path
 
@@ -26,6 +28,33 @@ NCPU = int(os.environ.get("VERIF_WORKERS", str(os.cpu_count() or 4)))
 # the checks always import py_ecc from the working tree under test (default /repo)
 if str(REPO) not in sys.path:
     sys.path.insert(0, str(REPO))
+
+
+class CallTimeout(Exception):
+    """A call into the library did not return within its wall-clock limit (non-termination suspected)."""
+
+
+_alarm_armed = False
+
+
+def _on_alarm(signum, frame):
+    raise CallTimeout("call did not return within its time limit: non-termination suspected")
+
+
+def limited(fn, seconds=60):
+    """Run fn() under a wall-clock limit (main thread of the process only; pool workers qualify).  The limits
+    used are several orders of magnitude above the normal duration of the guarded calls."""
+    global _alarm_armed
+    if threading.current_thread() is not threading.main_thread():
+        return fn()
+    if not _alarm_armed:
+        signal.signal(signal.SIGALRM, _on_alarm)
+        _alarm_armed = True
+    signal.setitimer(signal.ITIMER_REAL, seconds)
+    try:
+        return fn()
+    finally:
+        signal.setitimer(signal.ITIMER_REAL, 0)
 
 
 class MachineryError(Exception):
